@@ -229,6 +229,46 @@ def key_of(rec, clause):
     return "C03|%s|%s|%s" % (clause, shape, rec["x"]["t"][0])
 
 
+def universe(ck, strict_only=False):
+    """MC_Constraints: the validator chain as transcribed, model-checked over every int rule of the menu x every value; the universe
+    is exported by TLC and returned as (T, values) pairs for the replay"""
+    import os
+    import shutil
+    mc = tlc.run("MC_Constraints", "MC_Constraints.cfg")
+    ck.mc(mc, "MC validators")
+    if mc.invariant_violated:
+        ck.count("model_only_counterexamples")
+        ck.note("model-level counterexample: Constraints.tla violates %s" % mc.invariant_violated)
+    op = tlc.run("MC_Constraints", "MC_Constraints_open.cfg", workers=1, extra=("-continue",))
+    if "Invariant M_Idem is violated" not in op.output or "Invariant M_LaxStrict is violated" not in op.output:
+        raise MachineryError("MC_Constraints_open.cfg: the recorded C03 finding (lax multiple_of with a bound) is not reproduced at model level")
+    ck.count("open_point_reproduced_at_model_level (C03 known finding: lax multiple_of with a bound)")
+    wit = tlc.run("MC_Constraints", "MC_Constraints_witness.cfg", workers=1, extra=("-continue",))
+    missing = [w for w in ("W_StrictAccepts", "W_StrictRejects", "W_LaxChanges", "W_LaxThenStrictRejects") if "Invariant %s is violated" % w not in wit.output]
+    if missing:
+        raise MachineryError("vacuity: %s unreachable in MC_Constraints" % missing)
+    d = tlc.scratch("cn-")
+    try:
+        out = os.path.join(d, "cases.ndjson")
+        tlc.run("Export_Constraints", "Export_Constraints.cfg", env={"OUT_CASES": out}, workers=1)
+        rows = [json.loads(l) for l in open(out) if l.strip()]
+    finally:
+        shutil.rmtree(d, ignore_errors=True)
+    if sum(len(r["vals"]) for r in rows) != mc.distinct:
+        raise MachineryError("exported universe (%d cases) is not the one TLC explored (%d states)" % (sum(len(r["vals"]) for r in rows), mc.distinct))
+    out = []
+    for r in rows:
+        if strict_only and any(c["lax"] for c in r["cons"]):
+            continue
+        cons = []
+        for c in r["cons"]:
+            k = make_rule("int", [(c["c"], c["n"])])["cons"][0]
+            k["lax"] = c["lax"]
+            cons.append(k)
+        out.append((gen.rule("int", cons), r["vals"]))
+    return out
+
+
 def main():
     ck = Check("C03")
     thorough = ck.tier == "thorough"
@@ -259,6 +299,11 @@ def main():
     for tag, T in logical_types(rng, thorough):
         for x in POOL:
             add(T, x, tag)
+    nu = len(records)
+    for T, vals in universe(ck):
+        for x in vals:
+            add(T, x, "universe")
+    ck.count("universe_cases_replayed_into_code", len(records) - nu)
     byid = {r["id"]: r for r in records}
     r = tlc.judge("Trace_Idem", "Trace_Idem.cfg", records, workers=8)
     ck.mc(r, "Trace/MC")
